@@ -468,7 +468,7 @@ static int c14_cmd (char *line)
     {
       char *a[1] = { arg ? arg : "" };
       c14_reactive = 1;
-      if (vh_apply_str (u->ob, "add_react", 1, a, 0, 0))
+      if (!(u->ob->flags & O_DESTRUCTED) && vh_apply_str (u->ob, "add_react", 1, a, 0, 0))
         out ("lpcerr");
       return 1;
     }
@@ -548,8 +548,18 @@ static int c14_cmd (char *line)
     {
       /* the flush_messages() efun, called from LPC: with the user object / without argument (every user) */
       char *a[1] = { IS ("flushall") ? "all" : "me" };
+      object_t *caller = u->ob;
       global = IS ("flushall");
-      if (vh_apply_str (u->ob, "do_flush", 1, a, 0, 0))
+      /* a user object destructed by a scripted reaction cannot run LPC code (this_object() is 0 there): flush_messages()
+       * without argument is then called from another user's object; with argument there is nothing to flush */
+      if (caller->flags & O_DESTRUCTED)
+        {
+          caller = 0;
+          for (int i = 1; global && i <= MAXU; i++)
+            if (!caller && U[i].created && !(U[i].ob->flags & O_DESTRUCTED))
+              caller = U[i].ob;
+        }
+      if (caller && vh_apply_str (caller, "do_flush", 1, a, 0, 0))
         out ("lpcerr");
     }
   else if (IS ("cycle"))
